@@ -40,7 +40,7 @@ func init() {
 			// the result tuple variable: results := sig.Results()
 			var tuple *types.Var
 			for v, ds := range fi.defs {
-				if len(ds) == 1 && ds[0].rhs != nil {
+				if len(ds) == 1 && ds[0].rhs != nil && fi.within(ds[0].node, fi.Decl) {
 					if rc := fi.isCall(ds[0].rhs, "go/types.Signature.Results"); rc != nil && fi.varOf(recvOf(rc)) != nil && fi.isParam(fi.varOf(recvOf(rc))) {
 						tuple = v
 					}
